@@ -1,15 +1,33 @@
 #!/venv/bin/python
-"""Print a markdown table of the seeded changes and which checks detect them (from seeded/*/meta.json)."""
+"""Print a markdown table of the kept seeded changes and which checks detect them (from seeded/*/meta.json, as left by
+tools/run_seeds_parallel.py / tools/run_seed.py)."""
 import glob, json, os, re
+
 rows = []
-for d in sorted(glob.glob("/verif/seeded/*")):
+n = det_own = det_other = missed = 0
+for d in sorted(glob.glob("/verif/seeded/C*")):
     m = json.load(open(d + "/meta.json")) if os.path.exists(d + "/meta.json") else {}
     name = os.path.basename(d)
     notes = open(d + "/notes.md").read() if os.path.exists(d + "/notes.md") else ""
     first = next((l.strip("# ").strip() for l in notes.splitlines() if l.strip()), "")
-    files = ", ".join(sorted({l.split("|")[0].strip() for l in m.get("confirmation", {}).get("files", [])[:-1]}))
+    files = ", ".join(sorted(set(re.findall(r"^diff --git a/(\S+)", open(d + "/patch.diff").read(), re.M))))
     det = m.get("detection", {})
-    dets = "; ".join("%s: %s" % (k, ("**detected** `%s`" % re.search(r"sig=(\S+)", v["first"]).group(1)) if v.get("violations") else "missed") for k, v in sorted(det.items()))
-    rows.append("| %s | %s | %s | %s |" % (name, files, first[:110].replace("|", "/"), dets))
-print("| change | files | what | checks run against it |\n|---|---|---|---|")
+    own = name.split("-")[0]
+    parts = []
+    hit_own = hit_other = False
+    for k, v in sorted(det.items()):
+        if v.get("violations") and v.get("rc") == 1:
+            sig = re.search(r"sig=(\S+)", v["first"])
+            parts.append("%s: **detected** `%s`" % (k.split("/")[0], sig.group(1) if sig else "?"))
+            hit_own |= k.startswith(own + "/")
+            hit_other |= not k.startswith(own + "/")
+        else:
+            parts.append("%s: missed" % k.split("/")[0])
+    n += 1
+    det_own += hit_own
+    det_other += (not hit_own) and hit_other
+    missed += not (hit_own or hit_other)
+    rows.append("| %s | %s | %s | %s |" % (name, files, first[:120].replace("|", "/"), "; ".join(parts)))
+print("%d kept changes: %d detected by the check of their own property, %d only by another property's check, %d missed.\n" % (n, det_own, det_other, missed))
+print("| change | files | what | quick checks run against it |\n|---|---|---|---|")
 print("\n".join(rows))
